@@ -19,7 +19,7 @@ from sympy.logic import And, Not, Or, Xor
 from sympy.logic.boolalg import Boolean, BooleanFalse, BooleanTrue
 
 from .. import _verif
-from ..ast2logic.typing import Arg, Args, BoolExpList
+from ..ast2logic.typing import Arg, Args, BoolExpList, is_return_symbol
 from ..boolquant import QuantumBooleanGate
 from ..qcircuit import QCircuit, QCircuitEnhanced
 from . import Compiler, CompilerException, ExpQMap
@@ -112,7 +112,7 @@ class InternalCompiler(Compiler):
 
         # 1. If we have a constant expression, create if needed and return a constant qubit
         if isinstance(expr, (BooleanFalse, BooleanTrue)) and (
-            sym is not None and sym.name.startswith("_ret")
+            sym is not None and is_return_symbol(sym.name)
         ):
             # a constant return bit gets its own qubit: the shared constant qubits are read by other
             # expressions and must not be an output
@@ -330,7 +330,7 @@ class InternalCompiler(Compiler):
 
     def compile_symbol(self, qc, expr, dest=None, sym=None) -> int:
         # 1. If a qubit is mapped to another qubit (iff sym.name is a _ret)
-        if sym is not None and sym.name.startswith("_ret"):
+        if sym is not None and is_return_symbol(sym.name):
             # 1.1 Xor mapping to a new qubit if the expr is an input (or another name of an input
             # qubit: the result must not live on an argument qubit)
             if expr.name in self.input_symbols or (
